@@ -275,10 +275,6 @@ theorem ownD_same (m : Mode) (env : Env) (kw : Kw) (i : Option S) (p : List (Str
 
 
 
-theorem afterNot_map (n : Option S) (f : S → List Ev) (v : J) :
-    afterNot (match n with | none => none | some t => some (f t, v)) v = v := by
-  cases n <;> simp [afterNot]
-
 theorem outsEvs_map (l : List (List Ev)) (v : J) : outsEvs (l.map (fun t => (t, v))) = l := by
   simp [outsEvs, Function.comp_def]
 
@@ -371,25 +367,23 @@ theorem visitD_inert_all (m : Mode) (env : Env) :
     obtain ⟨hi2, hic⟩ := inert_or hi3
     obtain ⟨hia, hib⟩ := inert_or hi2
     have en := ihn hw hin
-    have hv1 : afterNot (notD m env n v) v = v := by rw [en]; exact afterNot_map n _ v
-    rw [hv1] at iho
     have eo := iho hw hic
     have hv2 : afterOne c kw (selD m env (discCheck kw v).ref c v) v = v := by
       apply afterOne_same; rw [eo]; intro o ho; simp only [List.mem_map] at ho; obtain ⟨t, _, rfl⟩ := ho; rfl
-    rw [hv1, hv2] at iha
+    rw [hv2] at iha
     have ea := iha hw hib
     have hv3 : afterAny b (eachD m env b v) v = v := by
       apply afterAny_same; rw [ea]; intro o ho; simp only [List.mem_map] at ho; obtain ⟨t, _, rfl⟩ := ho; rfl
-    rw [hv1, hv2, hv3] at ihl
+    rw [hv2, hv3] at ihl
     have el := ihl hw hia
     have hv4 : seqFin (seqD m env a v) v = v := by
       apply seqFin_same; rw [el]; intro o ho; simp only [List.mem_map] at ho; obtain ⟨t, _, rfl⟩ := ho; rfl
     have hown := ownD_same m env kw i p ad v hw hip (ihi hii) (ihp hip) (ihad hiad)
     unfold visitD
-    simp only [hv1, hv2, hv3, hv4]
+    simp only [hv2, hv3, hv4]
     rw [events_unfold]
     unfold nodeD evCombine
-    simp only [hv1, hv2, hv3, hv4, hown, ite_self]
+    simp only [hv2, hv3, hv4, hown, ite_self]
     rw [en, eo, ea, el]
     simp only [outsEvs_map]
     by_cases h1 : (v.isNull && kw.permitsNull) = true
@@ -562,7 +556,7 @@ theorem asmKvs_wf (m : Mode) (has : Option Bool) (props addl : List (String × O
 
 
 theorem nodeD_fin_cases (m : Mode) (env : Env) (kw : Kw) (a b c : List S) (p : List (String × S)) (sc : Bool) (v : J) (r : Subs) :
-    let v1 := afterNot r.rn v
+    let v1 := v
     let v2 := afterOne c kw r.ro v1
     let v3 := afterAny b r.ra v2
     let v4 := seqFin r.rl v3
@@ -727,19 +721,14 @@ theorem visitD_wf_all (m : Mode) (env : Env) :
     obtain ⟨hsa, hsb, hsc, hsn, hsi, hsp, hsad⟩ := hs
     unfold visitD
     simp only []
-    have w1 : WFJ (afterNot (notD m env n v) v) := by
-      unfold afterNot
-      split
-      · rename_i o ho; exact ihn hw hsn o ho
-      · exact hw
-    generalize hv1 : afterNot (notD m env n v) v = v1 at *
+    have w1 : WFJ v := hw
     have wro := iho w1 hsc
-    generalize hro : selD m env (discCheck kw v1).ref c v1 = ro at *
-    have w2 : WFJ (afterOne c kw ro v1) := by
-      rcases afterOne_cases c kw ro v1 with h | ⟨o, ho, h⟩
+    generalize hro : selD m env (discCheck kw v).ref c v = ro at *
+    have w2 : WFJ (afterOne c kw ro v) := by
+      rcases afterOne_cases c kw ro v with h | ⟨o, ho, h⟩
       · rw [h]; exact w1
       · rw [h]; exact wro o ho
-    generalize hv2 : afterOne c kw ro v1 = v2 at *
+    generalize hv2 : afterOne c kw ro v = v2 at *
     have wra := iha w2 hsb
     generalize hra : eachD m env b v2 = ra at *
     have w3 : WFJ (afterAny b ra v2) := by
@@ -760,7 +749,7 @@ theorem visitD_wf_all (m : Mode) (env : Env) :
         props := propsD m env p (ownKvs env kw p v4), addl := addlD m env ad (undeclared p (ownKvs env kw p v4)) }
       with h | h | h | h | h
     · rw [h]; exact hw
-    all_goals simp only [hv1, hro, hv2, hra, hv3, hrl, hv4] at h
+    all_goals try simp only [hro, hv2, hra, hv3, hrl, hv4] at h
     · rw [h]; exact w1
     · rw [h]; exact w2
     · rw [h]; exact w4
@@ -1065,7 +1054,7 @@ theorem ownD_agree (m m' : Mode) (env : Env) (kw : Kw) (p : List (String × S)) 
 def nodePass (m : Mode) (env : Env) (kw : Kw) (a b c : List S) (p : List (String × S)) (sc : Bool) (v : J) (r : Subs) : Bool :=
   if v.isNull && kw.permitsNull then true else
   if sc then !v.isNull else
-  let v1 := afterNot r.rn v
+  let v1 := v
   let v2 := afterOne c kw r.ro v1
   let v3 := afterAny b r.ra v2
   let v4 := seqFin r.rl v3
@@ -1104,8 +1093,8 @@ theorem nodeD_fin_of_pass (m : Mode) (env : Env) (kw : Kw) (a b c : List S) (p :
     (nodeD m env kw a b c p sc v r).2 =
       (if v.isNull && kw.permitsNull then v else if sc then v else
        if (v.isNull && (!c.isEmpty || !b.isEmpty || !a.isEmpty)) then
-         seqFin r.rl (afterAny b r.ra (afterOne c kw r.ro (afterNot r.rn v)))
-       else (ownD m env kw p (seqFin r.rl (afterAny b r.ra (afterOne c kw r.ro (afterNot r.rn v)))) r.items r.props r.addl).2) := by
+         seqFin r.rl (afterAny b r.ra (afterOne c kw r.ro v))
+       else (ownD m env kw p (seqFin r.rl (afterAny b r.ra (afterOne c kw r.ro v))) r.items r.props r.addl).2) := by
   unfold nodePass at h
   unfold nodeD
   split
@@ -1132,20 +1121,19 @@ theorem nodeD_fin_of_pass (m : Mode) (env : Env) (kw : Kw) (a b c : List S) (p :
 theorem allOK_nil : allOK [] = true := by simp [allOK, outsEvs, passCount]
 
 theorem nodeD_agree (m m' : Mode) (env : Env) (kw : Kw) (a b c : List S) (p : List (String × S)) (sc : Bool) (v : J) (r r' : Subs)
-    (hrn : r.rn = r'.rn) (hro : AgreeL r.ro r'.ro) (hra : AgreeL r.ra r'.ra)
+    (hrn : notOK r.rn = notOK r'.rn) (hro : AgreeL r.ro r'.ro) (hra : AgreeL r.ra r'.ra)
     (hrl : allOK r.rl = allOK r'.rl ∧
-      (allOK r.rl = true → seqFin r.rl (afterAny b r.ra (afterOne c kw r.ro (afterNot r.rn v))) =
-                           seqFin r'.rl (afterAny b r.ra (afterOne c kw r.ro (afterNot r.rn v)))))
+      (allOK r.rl = true → seqFin r.rl (afterAny b r.ra (afterOne c kw r.ro v)) =
+                           seqFin r'.rl (afterAny b r.ra (afterOne c kw r.ro v))))
     (hown : allOK r.rl = true →
-      Agree (ownD m env kw p (seqFin r.rl (afterAny b r.ra (afterOne c kw r.ro (afterNot r.rn v)))) r.items r.props r.addl)
-            (ownD m' env kw p (seqFin r.rl (afterAny b r.ra (afterOne c kw r.ro (afterNot r.rn v)))) r'.items r'.props r'.addl))
+      Agree (ownD m env kw p (seqFin r.rl (afterAny b r.ra (afterOne c kw r.ro v))) r.items r.props r.addl)
+            (ownD m' env kw p (seqFin r.rl (afterAny b r.ra (afterOne c kw r.ro v))) r'.items r'.props r'.addl))
     (hlm : a.isEmpty = true → r.rl = [] ∧ r'.rl = []) :
     Agree (nodeD m env kw a b c p sc v r) (nodeD m' env kw a b c p sc v r') := by
-  have e1 : afterNot r'.rn v = afterNot r.rn v := by rw [hrn]
-  have e2 : afterOne c kw r'.ro (afterNot r.rn v) = afterOne c kw r.ro (afterNot r.rn v) := (agreeL_afterOne c kw hro _).symm
-  have e3 : afterAny b r'.ra (afterOne c kw r.ro (afterNot r.rn v)) = afterAny b r.ra (afterOne c kw r.ro (afterNot r.rn v)) :=
+  have e2 : afterOne c kw r'.ro v = afterOne c kw r.ro v := (agreeL_afterOne c kw hro _).symm
+  have e3 : afterAny b r'.ra (afterOne c kw r.ro v) = afterAny b r.ra (afterOne c kw r.ro v) :=
     (agreeL_afterAny b hra _).symm
-  have eo : oneOK c kw r'.ro (afterNot r.rn v) = oneOK c kw r.ro (afterNot r.rn v) := (agreeL_oneOK c kw hro _).symm
+  have eo : oneOK c kw r'.ro v = oneOK c kw r.ro v := (agreeL_oneOK c kw hro _).symm
   have ea : anyOK b r'.ra = anyOK b r.ra := (agreeL_anyOK b hra).symm
   have hpass : nodePass m env kw a b c p sc v r = nodePass m' env kw a b c p sc v r' := by
     unfold nodePass
@@ -1154,7 +1142,7 @@ theorem nodeD_agree (m m' : Mode) (env : Env) (kw : Kw) (a b c : List S) (p : Li
     · split
       · rfl
       · dsimp only
-        rw [e1, e2, e3, eo, ea, ← hrn, ← hrl.1]
+        rw [e2, e3, eo, ea, ← hrn, ← hrl.1]
         cases hall : allOK r.rl with
         | true =>
           rw [← hrl.2 hall, (hown hall).1]
@@ -1181,11 +1169,11 @@ theorem nodeD_agree (m m' : Mode) (env : Env) (kw : Kw) (a b c : List S) (p : Li
           cases hae : a.isEmpty with
           | true => rw [(hlm hae).1]; exact allOK_nil
           | false => simpa [hae] using hp.1.2
-        rw [e1, e2, e3, ← hrl.2 hall]
+        rw [e2, e3, ← hrl.2 hall]
         split
         · rfl
         · rename_i hs
-          have hownp : passesL (ownD m env kw p (seqFin r.rl (afterAny b r.ra (afterOne c kw r.ro (afterNot r.rn v)))) r.items r.props r.addl).1 = true := by
+          have hownp : passesL (ownD m env kw p (seqFin r.rl (afterAny b r.ra (afterOne c kw r.ro v))) r.items r.props r.addl).1 = true := by
             unfold nodePass at hp
             simp only [h1, h2, if_false, Bool.false_eq_true] at hp
             simp only [Bool.and_eq_true, hs, Bool.false_or] at hp
@@ -1217,49 +1205,41 @@ theorem agreeL_map {α} (f g : α → Out) : ∀ (xs : List α), (∀ x ∈ xs, 
   | [], _ => .nil
   | x :: xs, h => .cons (h x (by simp)) (agreeL_map f g xs (fun y hy => h y (List.mem_cons_of_mem _ hy)))
 
-/-- what a `not` child that cannot inject returns, in every mode -/
-def notInert (env : Env) (n : Option S) (v : J) : Option Out :=
-  match n with | none => none | some t => some (events env t v, v)
-
-theorem afterNot_notInert (env : Env) (n : Option S) (v : J) : afterNot (notInert env n v) v = v := by
-  cases n <;> simp [notInert, afterNot]
-
 theorem modes_agree_all (m m' : Mode) (env : Env) :
-    (∀ (s : S) (v : J), WFJ v → s.dfltsWF → s.dfltUnderNot = false → Agree (visitD m env s v) (visitD m' env s v)) ∧
-    (∀ (ad : Option S) (_kvs : List (String × J)), dfltsWFO ad → dfltUnderNotO ad = false →
+    (∀ (s : S) (v : J), WFJ v → s.dfltsWF → Agree (visitD m env s v) (visitD m' env s v)) ∧
+    (∀ (ad : Option S) (_kvs : List (String × J)), dfltsWFO ad →
         ∀ t, ad = some t → ∀ x, WFJ x → Agree (visitD m env t x) (visitD m' env t x)) ∧
-    (∀ (p : List (String × S)) (_kvs : List (String × J)), dfltsWFP p → dfltUnderNotP p = false →
+    (∀ (p : List (String × S)) (_kvs : List (String × J)), dfltsWFP p →
         ∀ k s, lookup k p = some s → ∀ x, WFJ x → Agree (visitD m env s x) (visitD m' env s x)) ∧
-    (∀ (i : Option S) (_xs : List J), dfltsWFO i → dfltUnderNotO i = false →
+    (∀ (i : Option S) (_xs : List J), dfltsWFO i →
         ∀ t, i = some t → ∀ x, WFJ x → Agree (visitD m env t x) (visitD m' env t x)) ∧
-    (∀ (ss : List S) (v : J), WFJ v → dfltsWFL ss → dfltUnderNotL ss = false →
+    (∀ (ss : List S) (v : J), WFJ v → dfltsWFL ss →
         allOK (seqD m env ss v) = allOK (seqD m' env ss v) ∧
         (allOK (seqD m env ss v) = true → seqFin (seqD m env ss v) v = seqFin (seqD m' env ss v) v)) ∧
-    (∀ (ss : List S) (v : J), WFJ v → dfltsWFL ss → dfltUnderNotL ss = false → AgreeL (eachD m env ss v) (eachD m' env ss v)) ∧
-    (∀ (dr : String) (ss : List S) (v : J), WFJ v → dfltsWFL ss → dfltUnderNotL ss = false →
+    (∀ (ss : List S) (v : J), WFJ v → dfltsWFL ss → AgreeL (eachD m env ss v) (eachD m' env ss v)) ∧
+    (∀ (dr : String) (ss : List S) (v : J), WFJ v → dfltsWFL ss →
         AgreeL (selD m env dr ss v) (selD m' env dr ss v)) ∧
-    (∀ (_n : Option S) (_v : J), True) := by
+    (∀ (n : Option S) (v : J), WFJ v → dfltsWFO n → notOK (notD m env n v) = notOK (notD m' env n v)) := by
   refine visitD.mutual_induct m env
-    (motive_1 := fun s v => WFJ v → s.dfltsWF → s.dfltUnderNot = false → Agree (visitD m env s v) (visitD m' env s v))
-    (motive_2 := fun ad _ => dfltsWFO ad → dfltUnderNotO ad = false →
+    (motive_1 := fun s v => WFJ v → s.dfltsWF → Agree (visitD m env s v) (visitD m' env s v))
+    (motive_2 := fun ad _ => dfltsWFO ad →
         ∀ t, ad = some t → ∀ x, WFJ x → Agree (visitD m env t x) (visitD m' env t x))
-    (motive_3 := fun p _ => dfltsWFP p → dfltUnderNotP p = false →
+    (motive_3 := fun p _ => dfltsWFP p →
         ∀ k s, lookup k p = some s → ∀ x, WFJ x → Agree (visitD m env s x) (visitD m' env s x))
-    (motive_4 := fun i _ => dfltsWFO i → dfltUnderNotO i = false →
+    (motive_4 := fun i _ => dfltsWFO i →
         ∀ t, i = some t → ∀ x, WFJ x → Agree (visitD m env t x) (visitD m' env t x))
-    (motive_5 := fun ss v => WFJ v → dfltsWFL ss → dfltUnderNotL ss = false →
+    (motive_5 := fun ss v => WFJ v → dfltsWFL ss →
         allOK (seqD m env ss v) = allOK (seqD m' env ss v) ∧
         (allOK (seqD m env ss v) = true → seqFin (seqD m env ss v) v = seqFin (seqD m' env ss v) v))
-    (motive_6 := fun ss v => WFJ v → dfltsWFL ss → dfltUnderNotL ss = false → AgreeL (eachD m env ss v) (eachD m' env ss v))
-    (motive_7 := fun dr ss v => WFJ v → dfltsWFL ss → dfltUnderNotL ss = false → AgreeL (selD m env dr ss v) (selD m' env dr ss v))
-    (motive_8 := fun _ _ => True)
+    (motive_6 := fun ss v => WFJ v → dfltsWFL ss → AgreeL (eachD m env ss v) (eachD m' env ss v))
+    (motive_7 := fun dr ss v => WFJ v → dfltsWFL ss → AgreeL (selD m env dr ss v) (selD m' env dr ss v))
+    (motive_8 := fun n v => WFJ v → dfltsWFO n → notOK (notD m env n v) = notOK (notD m' env n v))
     ?main ?seqNil ?seqCons ?eachNil ?eachCons ?selNil ?selCons ?adNone ?adSome ?itNone ?itSome ?notNone ?notSome ?pNil ?pCons
-  case seqNil => intro v _ _ _; simp [seqD, seqFin]
+  case seqNil => intro v _ _; simp [seqD, seqFin]
   case seqCons =>
-    intro s ss v ih1 ih2 hw hs hx
+    intro s ss v ih1 ih2 hw hs
     simp only [dfltsWFL] at hs
-    simp only [dfltUnderNotL, Bool.or_eq_false_iff] at hx
-    have ag := ih1 hw hs.1 hx.1
+    have ag := ih1 hw hs.1
     simp only [seqD, allOK_cons, seqFin]
     cases hp : passesL (visitD m env s v).1 with
     | false =>
@@ -1269,76 +1249,62 @@ theorem modes_agree_all (m m' : Mode) (env : Env) :
       have hp' : passesL (visitD m' env s v).1 = true := by rw [← ag.1]; exact hp
       have e2 := ag.2 hp
       have hw2 : WFJ (visitD m env s v).2 := (visitD_wf_all m env).1 s v hw hs.1
-      have := ih2 hw2 hs.2 hx.2
+      have := ih2 hw2 hs.2
       rw [← e2]
       simp only [hp, hp', Bool.true_and, if_true]
       exact this
-  case eachNil => intro v _ _ _; simp only [eachD]; exact .nil
+  case eachNil => intro v _ _; simp only [eachD]; exact .nil
   case eachCons =>
-    intro s ss v ih1 ih2 hw hs hx
+    intro s ss v ih1 ih2 hw hs
     simp only [dfltsWFL] at hs
-    simp only [dfltUnderNotL, Bool.or_eq_false_iff] at hx
     simp only [eachD]
-    exact .cons (ih1 hw hs.1 hx.1) (ih2 hw hs.2 hx.2)
-  case selNil => intro dr v _ _ _; simp only [selD]; exact .nil
+    exact .cons (ih1 hw hs.1) (ih2 hw hs.2)
+  case selNil => intro dr v _ _; simp only [selD]; exact .nil
   case selCons =>
-    intro dr s ss v ih1 ih2 hw hs hx
+    intro dr s ss v ih1 ih2 hw hs
     simp only [dfltsWFL] at hs
-    simp only [dfltUnderNotL, Bool.or_eq_false_iff] at hx
     simp only [selD]
-    refine .cons ?_ (ih2 hw hs.2 hx.2)
+    refine .cons ?_ (ih2 hw hs.2)
     split
-    · exact ih1 hw hs.1 hx.1
+    · exact ih1 hw hs.1
     · exact Agree.refl _
-  case adNone => intro _ _ _ t h; cases h
+  case adNone => intro _ _ t h; cases h
   case adSome =>
-    intro t kvs ih hs hx t' ht x hwx
+    intro t kvs ih hs t' ht x hwx
     cases ht
-    exact ih ("", x) hwx (by simpa [dfltsWFO] using hs) (by simpa [dfltUnderNotO] using hx)
-  case itNone => intro _ _ _ t h; cases h
+    exact ih ("", x) hwx (by simpa [dfltsWFO] using hs)
+  case itNone => intro _ _ t h; cases h
   case itSome =>
-    intro t xs ih hs hx t' ht x hwx
+    intro t xs ih hs t' ht x hwx
     cases ht
-    exact ih x hwx (by simpa [dfltsWFO] using hs) (by simpa [dfltUnderNotO] using hx)
-  case notNone => intro _; trivial
-  case notSome => intros; trivial
-  case pNil => intro kvs _ _ k s h; simp [lookup] at h
+    exact ih x hwx (by simpa [dfltsWFO] using hs)
+  case notNone => intro v _ _; simp [notD]
+  case notSome =>
+    intro t v ih hw hs
+    simp only [notD, notOK]
+    rw [(ih hw (by simpa [dfltsWFO] using hs)).1]
+  case pNil => intro kvs _ k s h; simp [lookup] at h
   case pCons =>
-    intro k0 s0 ps kvs ih1 ih2 hs hx k s hl x hwx
+    intro k0 s0 ps kvs ih1 ih2 hs k s hl x hwx
     simp only [dfltsWFP] at hs
-    simp only [dfltUnderNotP, Bool.or_eq_false_iff] at hx
     simp only [lookup] at hl
     split at hl
-    · cases hl; exact ih1 x hwx hs.2.1 hx.1
-    · exact ih2 hs.2.2 hx.2 k s hl x hwx
+    · cases hl; exact ih1 x hwx hs.2.1
+    · exact ih2 hs.2.2 k s hl x hwx
   case main =>
     intro kw a b c n i p ad v
     dsimp only
-    intro _ iho iha ihl ihi ihp ihad hw hs hx
+    intro ihn iho iha ihl ihi ihp ihad hw hs
     unfold S.dfltsWF at hs
     obtain ⟨hsa, hsb, hsc, hsn, hsi, hsp, hsad⟩ := hs
-    unfold S.dfltUnderNot at hx
-    simp only [Bool.or_eq_false_iff] at hx
-    obtain ⟨⟨⟨⟨⟨⟨⟨hxn1, hxn2⟩, hxa⟩, hxb⟩, hxc⟩, hxi⟩, hxp⟩, hxad⟩ := hx
-    -- the `not` child cannot inject: both modes see `events`, the value stays
-    have hnot : ∀ mm, notD mm env n v = notInert env n v := by
-      intro mm
-      cases n with
-      | none => simp [notD, notInert]
-      | some t =>
-        simp only [notD, notInert]
-        rw [visitD_inert mm env t v hw (Or.inr (by simpa [hasPropDfltO] using hxn1))]
-    have hv1 : ∀ mm, afterNot (notD mm env n v) v = v := by
-      intro mm; rw [hnot mm]; exact afterNot_notInert env n v
-    rw [hv1 m] at iho
-    have ago := iho hw hsc hxc
+    have agn := ihn hw hsn
+    have ago := iho hw hsc
     have e2 := agreeL_afterOne c kw ago v
     have w2 : WFJ (afterOne c kw (selD m env (discCheck kw v).ref c v) v) := by
       rcases afterOne_cases c kw (selD m env (discCheck kw v).ref c v) v with h | ⟨o, ho, h⟩
       · rw [h]; exact hw
       · rw [h]; exact (visitD_wf_all m env).2.2.2.2.2.2.1 _ c v hw hsc o ho
-    rw [hv1 m] at iha
-    have aga := iha w2 hsb hxb
+    have aga := iha w2 hsb
     have e3 := agreeL_afterAny b aga (afterOne c kw (selD m env (discCheck kw v).ref c v) v)
     have w3 : WFJ (afterAny b (eachD m env b (afterOne c kw (selD m env (discCheck kw v).ref c v) v))
         (afterOne c kw (selD m env (discCheck kw v).ref c v) v)) := by
@@ -1346,10 +1312,9 @@ theorem modes_agree_all (m m' : Mode) (env : Env) :
           (afterOne c kw (selD m env (discCheck kw v).ref c v) v) with h | ⟨o, ho, h⟩
       · rw [h]; exact w2
       · rw [h]; exact (visitD_wf_all m env).2.2.2.2.2.1 b _ w2 hsb o ho
-    rw [hv1 m] at ihl
-    have agl := ihl w3 hsa hxa
+    have agl := ihl w3 hsa
     unfold visitD
-    simp only [hv1 m, hv1 m', hnot m, hnot m', afterNot_notInert]
+    simp only []
     rw [← e2, ← e3]
     generalize hv2 : afterOne c kw (selD m env (discCheck kw v).ref c v) v = v2 at *
     generalize hv3 : afterAny b (eachD m env b v2) v2 = v3 at *
@@ -1358,11 +1323,11 @@ theorem modes_agree_all (m m' : Mode) (env : Env) :
       · rw [h]; exact w3
       · rw [h]; exact (visitD_wf_all m env).2.2.2.2.1 a v3 w3 hsa o ho
     apply nodeD_agree
-    · rfl
+    · exact agn
     · exact ago
     · exact aga
-    · simp only [afterNot_notInert, hv2, hv3]; exact agl
-    · simp only [afterNot_notInert, hv2, hv3]
+    · simp only [hv2, hv3]; exact agl
+    · simp only [hv2, hv3]
       intro hall
       rw [← agl.2 hall]
       generalize seqFin (seqD m env a v3) v3 = v4 at *
@@ -1377,7 +1342,7 @@ theorem modes_agree_all (m m' : Mode) (env : Env) :
             cases v4 with
             | arr xs => simp only [itemsOf] at hx'; simp only [WFJ] at w4; exact wfjl_mem w4 x hx'
             | _ => simp [itemsOf] at hx'
-          exact ihi hsi hxi t rfl x hwx
+          exact ihi hsi t rfl x hwx
       · cases i with
         | none => left; simp [itemsD]
         | some t => right; simp [itemsD]
@@ -1396,7 +1361,7 @@ theorem modes_agree_all (m m' : Mode) (env : Env) :
                 simp only [WFJ] at w4
                 exact wfjp_mem (ownKvs_wf env kw p kvs hsp w4.1 w4.2).2 (k, x) (lookup_some_mem _ k x hlx)
               | _ => simp [ownKvs, lookup] at hlx
-            exact ihp hsp hxp k s hlp x hwx
+            exact ihp hsp k s hlp x hwx
       · intro k
         cases ad with
         | none => simp [addlD, lookup, LookAgree]
@@ -1417,7 +1382,7 @@ theorem modes_agree_all (m m' : Mode) (env : Env) :
                 simp only [WFJ] at w4
                 exact wfjp_mem (ownKvs_wf env kw p kvs hsp w4.1 w4.2).2 (k, x) (lookup_some_mem _ k x hlx')
               | _ => simp [ownKvs, lookup] at hlx'
-            exact ihad hsad hxad t rfl x hwx
+            exact ihad hsad t rfl x hwx
     · intro hae
       have : a = [] := by simpa using hae
       subst this
@@ -1426,15 +1391,15 @@ theorem modes_agree_all (m m' : Mode) (env : Env) :
 
 /-! ### C12 under default injection -/
 
-/-- **Modes change the report, never the verdict — with DefaultsSet too**, outside the class of F-C12-1 (a `default`
-that the injection loop can reach below a `not`): for every schema whose defaults are well-formed values, every
-well-formed value, every request/response reading and option set, any two of the four modes give the same verdict, and
-when they accept they hand back the SAME value (with the same defaults injected). -/
-theorem modes_agree_with_defaults_partial (m m' : Mode) (env : Env) (s : S) (v : J)
-    (hw : WFJ v) (hs : s.dfltsWF) (hx : s.dfltUnderNot = false) :
+/-- **Modes change the report, never the verdict — with DefaultsSet too** (full strength since the repair of F-C12-1:
+`not` validates a deep copy): for every schema whose defaults are well-formed values, every well-formed value, every
+request/response reading and option set, any two of the four modes give the same verdict, and when they accept they
+hand back the SAME value (with the same defaults injected). -/
+theorem modes_agree_with_defaults (m m' : Mode) (env : Env) (s : S) (v : J)
+    (hw : WFJ v) (hs : s.dfltsWF) :
     (validateD m env s v).1.isOk = (validateD m' env s v).1.isOk ∧
     ((validateD m env s v).1.isOk = true → (validateD m env s v).2 = (validateD m' env s v).2) := by
-  have h := (modes_agree_all m m' env).1 s v hw hs hx
+  have h := (modes_agree_all m m' env).1 s v hw hs
   unfold validateD
   simp only [mode_independent]
   exact h
@@ -1486,7 +1451,7 @@ theorem anyOf_only_matched (b : List S) (ra : List Out) (v : J) :
       right; exact ⟨o, firstPass_mem ho, firstPass_passes ho, ho, rfl⟩
     · left; rfl
 
-/-! ### F-C12-1: inside the class the modes do part (kernel-checked witness), and the theorem is not vacuous -/
+/-! ### F-C12-1 (fixed): the former witness is a regression theorem — all modes accept and leave the value alone -/
 
 def f1Env : Env := { regex := fun _ _ => none, strFormat := fun _ _ => none, asreq := true, dfl := true }
 /-- `{not: {properties: {a: {type: string}, b: {properties: {c: {default: "x"}}}}}, properties: {b: {maxProperties: 0}}}` -/
@@ -1499,10 +1464,11 @@ def f1Schema : S :=
 def f1Value : J := .obj [("a", .bool true), ("b", .obj [])]
 
 theorem F_C12_1_in_class : f1Schema.dfltUnderNot = true := by decide
-/-- default mode accepts and leaves the value alone … -/
-theorem F_C12_1_witness_default : (validateD .dflt f1Env f1Schema f1Value).1.isOk = true := by decide
-/-- … multi-error mode went on inside the failing `not` child, injected `c`, and rejects `b` for having a property -/
-theorem F_C12_1_witness_multi : (validateD .multi f1Env f1Schema f1Value).1.isOk = false := by decide
+theorem F_C12_1_regression_default : (validateD .dflt f1Env f1Schema f1Value).1.isOk = true := by decide
+/-- before the repair multi-error mode went on inside the failing `not` child, injected `c` into the value itself and
+rejected `b` for having a property -/
+theorem F_C12_1_regression_multi : (validateD .multi f1Env f1Schema f1Value).1.isOk = true := by decide
+theorem F_C12_1_regression_silent : callbackFires .multi f1Env f1Schema f1Value = false := by decide
 
 /-- non-vacuity: defaults outside any `not` — injected, visited, and the modes agree -/
 def okSchema : S :=
@@ -1539,5 +1505,628 @@ theorem callback_iff_value_changed (m : Mode) (env : Env) (s : S) (v : J) :
   unfold callbackFires validateD
   simp only [Bool.not_eq_true', ne_eq]
   rw [← Bool.not_eq_true, jeq_iff_eq]
+
+
+
+/-! ### located, as far as a mode consumes the trace -/
+
+mutual
+/-- the part of the event that a visitor with stop policy `π` really executes is located in `v` -/
+def Ev.locP (π : Policy) (v : J) : Ev → Prop
+  | .fail e _ => Loc v e
+  | .child tok sub => (runL π sub).1 = [] ∨ ∃ x, resolve1 v tok = some x ∧ locPL π x sub
+  | .comp _ e _ => Loc v e
+/-- … of a level: every event up to (and including) the one after which the level returns -/
+def locPL (π : Policy) (v : J) : List Ev → Prop
+  | [] => True
+  | e :: es => e.locP π v ∧ ((e.run π).2 = false → locPL π v es)
+end
+
+theorem runL_located (π : Policy) :
+    (∀ ev : Ev, ∀ v, ev.locP π v → ∀ e ∈ (ev.run π).1, Loc v e) ∧
+    (∀ _ts : List (List Ev), True) ∧
+    (∀ t : List Ev, ∀ v, locPL π v t → ∀ e ∈ (runL π t).1, Loc v e) := by
+  refine Ev.passes.mutual_induct
+    (motive_1 := fun ev => ∀ v, ev.locP π v → ∀ e ∈ (ev.run π).1, Loc v e)
+    (motive_2 := fun _ => True)
+    (motive_3 := fun t => ∀ v, locPL π v t → ∀ e ∈ (runL π t).1, Loc v e)
+    ?f ?ch ?co ?nil ?cons ?nil2 ?cons2
+  case f =>
+    intro e fatal v h e' he'
+    simp only [Ev.run, List.mem_singleton] at he'
+    subst he'; exact h
+  case ch =>
+    intro tok sub ih v h e he
+    simp only [Ev.run, List.mem_map] at he
+    obtain ⟨e0, he0, rfl⟩ := he
+    simp only [Ev.locP] at h
+    rcases h with h | ⟨x, hx, hsub⟩
+    · rw [h] at he0; simp at he0
+    · exact loc_mark hx (ih x hsub e0 he0)
+  case co =>
+    intro k e subs _ v h e' he'
+    simp only [Ev.run] at he'
+    simp only [Ev.locP] at h
+    split at he' <;> simp at he'
+    subst he'; exact h
+  case nil => intro v _ e he; simp [runL] at he
+  case cons =>
+    intro ev es ih1 ih2 v h e he
+    simp only [locPL] at h
+    simp only [runL] at he
+    split at he
+    · exact ih1 v h.1 e he
+    · rename_i hs
+      simp only [Bool.not_eq_true] at hs
+      rcases List.mem_append.mp he with he | he
+      · exact ih1 v h.1 e he
+      · exact ih2 v (h.2 hs) e he
+  case nil2 => trivial
+  case cons2 => intros; trivial
+
+/-- the multi-error fold IS the general fold under the MultiErrors policy -/
+theorem collect_eq_run :
+    (∀ ev : Ev, ev.collect = ev.run Mode.multi.policy) ∧
+    (∀ ts : List (List Ev), collectCount ts = runCount Mode.multi.policy ts) ∧
+    (∀ t : List Ev, collectL t = (runL Mode.multi.policy t).1) := by
+  refine Ev.passes.mutual_induct
+    (motive_1 := fun ev => ev.collect = ev.run Mode.multi.policy)
+    (motive_2 := fun ts => collectCount ts = runCount Mode.multi.policy ts)
+    (motive_3 := fun t => collectL t = (runL Mode.multi.policy t).1)
+    ?f ?ch ?co ?nil ?cons ?nil2 ?cons2
+  case f => intro e fatal; simp [Ev.collect, Ev.run, Mode.policy]
+  case ch => intro tok sub ih; simp [Ev.collect, Ev.run, Mode.policy, ih]
+  case co => intro k e subs ih; simp only [Ev.collect, Ev.run, ih]
+  case nil => simp [collectL, runL]
+  case cons =>
+    intro e es ih1 ih2
+    simp only [collectL, runL, ih1, ih2]
+    split <;> rfl
+  case nil2 => simp [collectCount, runCount]
+  case cons2 => intro t ts ih1 ih2; simp only [collectCount, runCount, ih1, ih2]
+
+/-- the default-mode fold is the general fold under the "every failure returns" policy -/
+theorem first_eq_run :
+    (∀ ev : Ev, ev.firstErr.toList = (ev.run Mode.dflt.policy).1 ∧ (ev.run Mode.dflt.policy).2 = ev.firstErr.isSome) ∧
+    (∀ ts : List (List Ev), firstCount ts = runCount Mode.dflt.policy ts) ∧
+    (∀ t : List Ev, (firstErrL t).toList = (runL Mode.dflt.policy t).1) := by
+  refine Ev.passes.mutual_induct
+    (motive_1 := fun ev => ev.firstErr.toList = (ev.run Mode.dflt.policy).1 ∧ (ev.run Mode.dflt.policy).2 = ev.firstErr.isSome)
+    (motive_2 := fun ts => firstCount ts = runCount Mode.dflt.policy ts)
+    (motive_3 := fun t => (firstErrL t).toList = (runL Mode.dflt.policy t).1)
+    ?f ?ch ?co ?nil ?cons ?nil2 ?cons2
+  case f => intro e fatal; simp [Ev.firstErr, Ev.run, Mode.policy]
+  case ch =>
+    intro tok sub ih
+    simp only [Ev.firstErr, Ev.run, ← ih]
+    cases firstErrL sub <;> simp [Mode.policy]
+  case co =>
+    intro k e subs ih
+    simp only [Ev.firstErr, Ev.run, ih]
+    split <;> simp
+  case nil => simp [firstErrL, runL]
+  case cons =>
+    intro e es ih1 ih2
+    simp only [firstErrL, runL, ih1.2, ← ih2]
+    cases hf : e.firstErr with
+    | none => simp [← ih1.1, hf]
+    | some x => simp [← ih1.1, hf]
+  case nil2 => simp [firstCount, runCount]
+  case cons2 =>
+    intro t ts ih1 ih2
+    simp only [firstCount, runCount, ← ih1, ih2]
+    cases firstErrL t <;> simp
+
+/-- **located as far as consumed ⇒ every reported error is located**, in every mode -/
+theorem pointers_located_consumed (m : Mode) (v : J) (t : List Ev) (h : locPL m.policy v t) :
+    ∀ e ∈ (report m t).errs, Loc v e := by
+  have hr := (runL_located m.policy).2.2 t v h
+  cases m with
+  | dflt =>
+    simp only [report]
+    have := first_eq_run.2.2 t
+    cases hf : firstErrL t with
+    | none => simp [Res.errs]
+    | some e0 =>
+      simp only [Res.errs, List.mem_singleton]
+      intro e he; subst he
+      exact hr e (by rw [← this, hf]; simp)
+  | failfast => simp only [report]; cases firstErrL t <;> simp [Res.errs]
+  | multi =>
+    simp only [report]
+    cases hc : collectL t with
+    | nil => simp [Res.errs]
+    | cons a b =>
+      simp only [Res.errs]
+      intro e he
+      exact hr e (by rw [← collect_eq_run.2.2 t, hc]; exact he)
+  | ffmulti => simp only [report]; cases (runL Mode.ffmulti.policy t).1 <;> simp [Res.errs]
+
+
+
+
+
+
+theorem locP_of_located (π : Policy) :
+    (∀ ev : Ev, ∀ v, ev.located v → ev.locP π v) ∧ (∀ _ts : List (List Ev), True) ∧
+    (∀ t : List Ev, ∀ v, locatedL v t → locPL π v t) := by
+  refine Ev.passes.mutual_induct
+    (motive_1 := fun ev => ∀ v, ev.located v → ev.locP π v) (motive_2 := fun _ => True)
+    (motive_3 := fun t => ∀ v, locatedL v t → locPL π v t) ?f ?ch ?co ?nil ?cons ?nil2 ?cons2
+  case f => intro e f v h; simpa [Ev.located, Ev.locP] using h
+  case ch =>
+    intro tok sub ih v h
+    simp only [Ev.located] at h
+    obtain ⟨x, hx, hs⟩ := h
+    simp only [Ev.locP]
+    exact Or.inr ⟨x, hx, ih x hs⟩
+  case co => intro k e subs _ v h; simpa [Ev.located, Ev.locP] using h
+  case nil => intro v _; simp [locPL]
+  case cons =>
+    intro e es ih1 ih2 v h
+    simp only [locatedL] at h
+    simp only [locPL]
+    exact ⟨ih1 v h.1, fun _ => ih2 v h.2⟩
+  case nil2 => trivial
+  case cons2 => intros; trivial
+
+theorem runL_append_halt (π : Policy) : ∀ (a b : List Ev),
+    (runL π (a ++ b)).2 = ((runL π a).2 || (runL π b).2)
+  | [], b => by simp [runL]
+  | e :: es, b => by
+    simp only [List.cons_append, runL]
+    split
+    · rename_i h; simp [h]
+    · rename_i h; simp [h, runL_append_halt π es b]
+
+theorem locPL_append (π : Policy) (v : J) : ∀ (a b : List Ev),
+    locPL π v a → ((runL π a).2 = false → locPL π v b) → locPL π v (a ++ b)
+  | [], b, _, hb => by simpa using hb (by simp [runL])
+  | e :: es, b, ha, hb => by
+    simp only [locPL] at ha
+    simp only [List.cons_append, locPL]
+    refine ⟨ha.1, fun hs => locPL_append π v es b (ha.2 hs) (fun hes => hb ?_)⟩
+    simp only [runL, hs, Bool.false_eq_true, if_false, hes]
+
+
+
+theorem arrChecks_halt (π : Policy) (kw : Kw) (xs : List J) (q q' : J) :
+    (runL π (checkEvs (arrChecksQ kw xs q))).2 = (runL π (checkEvs (arrChecksQ kw xs q'))).2 := by
+  simp only [arrChecksQ, checkEvs, List.flatMap_cons, List.flatMap_nil, List.append_nil]
+  cases (!kw.permits "array") <;> cases minItemsBad kw xs.length <;> cases maxItemsBad kw xs.length <;>
+    cases (kw.uniqueItems && !uniqueB xs) <;> cases h1 : π.leaf false false <;> cases h2 : π.leaf true false <;>
+    simp [chk, runL, Ev.run, here, typeErr, h1, h2]
+
+theorem objChecks_halt (π : Policy) (kw : Kw) (kvs : List (String × J)) (q q' : J) :
+    (runL π (checkEvs (objChecksQ kw kvs q))).2 = (runL π (checkEvs (objChecksQ kw kvs q'))).2 := by
+  simp only [objChecksQ, checkEvs, List.flatMap_cons, List.flatMap_nil, List.append_nil]
+  cases (!kw.permits "object") <;> cases minPropsBad kw kvs.length <;> cases maxPropsBad kw kvs.length <;>
+    cases h1 : π.leaf false false <;> cases h2 : π.leaf true false <;> simp [chk, runL, Ev.run, here, typeErr, h1, h2]
+
+theorem memberEvs_halt (π : Policy) (has : Option Bool) (props addl : List (String × Out)) (k : String) (q q' : J) :
+    (runL π (memberEvs q has props addl k)).2 = (runL π (memberEvs q' has props addl k)).2 := by
+  unfold memberEvs propEv
+  cases (lookup k props) <;> cases (lookup k addl) <;> cases (has != some false) <;> cases h1 : π.leaf false false <;>
+    simp [runL, Ev.run, here, h1]
+
+
+theorem haltsL_single (m : Mode) (e : Ev) : haltsL m [e] = (e.run m.policy).2 := by
+  unfold haltsL
+  simp only [runL]
+  cases h : (e.run m.policy).2 <;> simp [h]
+
+theorem lookup_done_cons (k : String) (x : J) : ∀ (done rest : List (String × J)), k ∉ keysOf done →
+    lookup k (done ++ (k, x) :: rest) = some x
+  | [], rest, _ => by simp [lookup]
+  | (k0, x0) :: d, rest, h => by
+    simp only [keysOf, List.mem_cons, not_or] at h
+    simp only [List.cons_append, lookup, h.1, if_false]
+    exact lookup_done_cons k x d rest h.2
+
+theorem keysOf_append_cons (k : String) (y : J) (t : List (String × J)) : ∀ (d : List (String × J)),
+    keysOf (d ++ (k, y) :: t) = keysOf d ++ k :: keysOf t
+  | [] => by simp [keysOf]
+  | (a1, a2) :: d => by simp [keysOf, keysOf_append_cons k y t d]
+
+theorem members_locP (m : Mode) (has : Option Bool) (props addl : List (String × Out)) (q : J)
+    (hp : ∀ k o, lookup k props = some o → locPL m.policy o.2 o.1)
+    (ha : ∀ k o, lookup k addl = some o → locPL m.policy o.2 o.1) :
+    ∀ (l done : List (String × J)), (keysOf (done ++ l)).Nodup →
+      q = .obj (done ++ asmKvs m has props addl false l) →
+      locPL m.policy q (kvsEvs q has props addl l)
+  | [], done, _, _ => by simp [kvsEvs, locPL]
+  | (k, x) :: r, done, hn, hq => by
+    simp only [kvsEvs]
+    simp only [asmKvs, Bool.false_eq_true, if_false] at hq
+    have hk : k ∉ keysOf done := by
+      intro hk
+      rw [keysOf_append_cons] at hn
+      exact (List.nodup_append.mp hn).2.2 k hk k (by simp) rfl
+    apply locPL_append
+    · -- the events of this member
+      unfold memberEvs propEv
+      cases h1 : lookup k props with
+      | some o =>
+        simp only [Option.map_some, locPL, Ev.locP, and_true]
+        constructor
+        · right
+          refine ⟨o.2, ?_, hp k o h1⟩
+          rw [hq]; simp only [resolve1]
+          rw [lookup_done_cons k _ done _ hk]
+          simp [propSel, selFin, h1]
+        · intro _; trivial
+      | none =>
+        simp only [Option.map_none]
+        cases hh : (has != some false) with
+        | false =>
+          simp only [Bool.false_eq_true, if_false, locPL, Ev.locP, and_true]
+          exact ⟨loc_here _ _ _, fun _ => trivial⟩
+        | true =>
+          simp only [if_true]
+          cases h2 : lookup k addl with
+          | none => simp [locPL]
+          | some o =>
+            simp only [Option.map_some, locPL, Ev.locP, and_true]
+            constructor
+            · right
+              refine ⟨o.2, ?_, ha k o h2⟩
+              rw [hq]; simp only [resolve1]
+              rw [lookup_done_cons k _ done _ hk]
+              simp [propSel, selFin, h1, h2, hh]
+            · intro _; trivial
+    · intro hs
+      have hstop : haltsL m (memberEvs .null has props addl k) = false := by
+        unfold haltsL; rw [memberEvs_halt m.policy has props addl k .null q]; exact hs
+      rw [hstop] at hq
+      apply members_locP m has props addl q hp ha r (done ++ [(k, selFin (propSel has (lookup k props) (lookup k addl)) x)])
+      · rw [keysOf_append_cons] at hn
+        rw [List.append_assoc]
+        simp only [List.singleton_append]
+        rw [keysOf_append_cons]; exact hn
+      · rw [hq, List.append_assoc]; rfl
+
+theorem getElem?_append_length {α} (done : List α) (x : α) (rest : List α) : (done ++ x :: rest)[done.length]? = some x := by
+  simp
+
+theorem items_locP (m : Mode) : ∀ (xs : List J) (os : List Out) (done : List J) (i : Nat),
+    done.length = i → os.length = xs.length → (∀ o ∈ os, locPL m.policy o.2 o.1) →
+    locPL m.policy (.arr (done ++ asmItems m false i xs os)) (itemEvs i os)
+  | [], [], done, i, _, _, _ => by simp [itemEvs, locPL]
+  | [], o :: os, done, i, _, h, _ => by simp at h
+  | x :: xs, [], done, i, _, h, _ => by simp at h
+  | x :: xs, o :: os, done, i, hd, hl, ho => by
+    simp only [itemEvs, locPL, asmItems, Bool.false_eq_true, if_false]
+    constructor
+    · simp only [Ev.locP]
+      right
+      refine ⟨o.2, ?_, ho o (by simp)⟩
+      simp only [resolve1]
+      rw [← hd]; exact getElem?_append_length done o.2 _
+    · intro hs
+      rw [haltsL_single, hs]
+      have := items_locP m xs os (done ++ [o.2]) (i + 1) (by simp [hd]) (by simpa using hl)
+        (fun o' ho' => ho o' (List.mem_cons_of_mem _ ho'))
+      simpa [List.append_assoc] using this
+
+
+theorem ownD_locP (m : Mode) (env : Env) (kw : Kw) (p : List (String × S)) (v : J)
+    (items : List Out) (props addl : List (String × Out))
+    (hitems : ∀ o ∈ items, locPL m.policy o.2 o.1)
+    (hlen : items = [] ∨ items.length = (itemsOf v).length)
+    (hp : ∀ k o, lookup k props = some o → locPL m.policy o.2 o.1)
+    (ha : ∀ k o, lookup k addl = some o → locPL m.policy o.2 o.1)
+    (hkeys : (keysOf (ownKvs env kw p v)).Nodup) :
+    locPL m.policy (ownD m env kw p v items props addl).2 (ownD m env kw p v items props addl).1 := by
+  cases v with
+  | null => exact (locP_of_located m.policy).2.2 _ _ (ownEvsQ_located env kw p _ _ [] (quotes_self _) (by simp [locatedL]))
+  | bool b => exact (locP_of_located m.policy).2.2 _ _ (ownEvsQ_located env kw p _ _ [] (quotes_self _) (by simp [locatedL]))
+  | num x => exact (locP_of_located m.policy).2.2 _ _ (ownEvsQ_located env kw p _ _ [] (quotes_self _) (by simp [locatedL]))
+  | str x => exact (locP_of_located m.policy).2.2 _ _ (ownEvsQ_located env kw p _ _ [] (quotes_self _) (by simp [locatedL]))
+  | arr xs =>
+    simp only [ownD, arrEvsQ]
+    apply locPL_append
+    · apply (locP_of_located m.policy).2.2
+      apply checkEvs_located
+      intro c hc
+      simp only [arrChecksQ, List.mem_cons, List.mem_nil_iff, or_false] at hc
+      rcases hc with rfl | rfl | rfl | rfl <;> exact loc_here _ _ _
+    · intro hs
+      have hstop : haltsL m (checkEvs (arrChecksQ kw xs .null)) = false := by
+        unfold haltsL; rw [arrChecks_halt m.policy kw xs .null _]; exact hs
+      rw [hstop]
+      rcases hlen with h0 | hl
+      · subst h0; simp [itemEvs, locPL]
+      · have := items_locP m xs items [] 0 rfl (by simpa [itemsOf] using hl) hitems
+        simpa using this
+  | obj kvs =>
+    simp only [ownD, objEvsQ]
+    apply locPL_append
+    · apply locPL_append
+      · apply locPL_append
+        · apply (locP_of_located m.policy).2.2
+          apply checkEvs_located
+          intro c hc
+          simp only [objChecksQ, List.mem_cons, List.mem_nil_iff, or_false] at hc
+          rcases hc with rfl | rfl | rfl <;> exact loc_here _ _ _
+        · intro hs
+          have hstop : haltsL m (checkEvs (objChecksQ kw (ownKvs env kw p (.obj kvs)) .null)) = false := by
+            unfold haltsL; rw [objChecks_halt m.policy kw _ .null _]; exact hs
+          rw [hstop]
+          exact members_locP m kw.addHas props addl _ hp ha (ownKvs env kw p (.obj kvs)) [] (by simpa using hkeys) (by simp)
+      · intro _
+        apply (locP_of_located m.policy).2.2
+        apply checkEvs_located
+        intro c hc
+        simp only [reqChecks, List.mem_map] at hc
+        obtain ⟨k, _, rfl⟩ := hc
+        exact loc_required _ _ _
+    · intro _
+      exact (locP_of_located m.policy).2.2 _ _ (chk_located _ _ _ _ (loc_noValue _ _ rfl rfl))
+
+
+theorem policy_fatal (m : Mode) (s : Bool) : m.policy.leaf true s = true := by
+  cases m <;> simp [Mode.policy]
+
+theorem discEvs_halt (m : Mode) (kw : Kw) (v : J) : (runL m.policy (discEvs kw v)).2 = !(discCheck kw v).pass := by
+  unfold discEvs
+  cases discCheck kw v <;> simp [runL, Ev.run, DiscRes.pass, policy_fatal]
+
+theorem discEvs_nil_of_pass (kw : Kw) (v : J) (h : (discCheck kw v).pass = true) : discEvs kw v = [] := by
+  unfold discEvs
+  cases hd : discCheck kw v <;> simp [hd, DiscRes.pass] at h ⊢
+
+/-- the compositions of a node, as events quoting `q` -/
+def compEvs (kw : Kw) (a b c : List S) (v q : J) (r : Subs) : List Ev :=
+  (match r.rn with
+     | none => []
+     | some o => [.comp .not (here "not" q [.lit "Doesn't match schema \"not\""]) [o.1]]) ++
+   (if c.isEmpty then [] else discEvs kw v ++ [.comp .oneOf (here "oneOf" q (oneOfReason (outsEvs r.ro))) (outsEvs r.ro)]) ++
+   (if b.isEmpty then [] else [.comp .anyOf (here "anyOf" q [.lit "doesn't match any schema from \"anyOf\""]) (outsEvs r.ra)]) ++
+   (if a.isEmpty then [] else [.comp .allOf (here "allOf" q [.lit "doesn't match all schemas from \"allOf\""]) (outsEvs r.rl)])
+
+theorem compEvs_halt (m : Mode) (kw : Kw) (a b c : List S) (v q : J) (r : Subs) :
+    (runL m.policy (compEvs kw a b c v q r)).2 =
+      !(notOK r.rn && oneOK c kw r.ro v && anyOK b r.ra && (a.isEmpty || allOK r.rl)) := by
+  unfold compEvs
+  simp only [runL_append_halt]
+  have h1 : (runL m.policy (match r.rn with
+     | none => []
+     | some o => [Ev.comp CompKind.not (here "not" q [Frag.lit "Doesn't match schema \"not\""]) [o.1]])).2 = !notOK r.rn := by
+    unfold notOK
+    cases r.rn with
+    | none => simp [runL]
+    | some o =>
+      simp only [runL, Ev.run, runCount, (run_agrees m.policy).2.2 o.1]
+      cases passesL o.1 <;> simp [compOK]
+  have h2 : (runL m.policy (if c.isEmpty then [] else discEvs kw v ++ [Ev.comp CompKind.oneOf (here "oneOf" q (oneOfReason (outsEvs r.ro))) (outsEvs r.ro)])).2 =
+      !oneOK c kw r.ro v := by
+    unfold oneOK
+    cases c.isEmpty with
+    | true => simp [runL]
+    | false =>
+      simp only [Bool.false_eq_true, if_false, runL_append_halt, discEvs_halt, Bool.false_or]
+      simp only [runL, Ev.run, (run_agrees m.policy).2.1]
+      cases (discCheck kw v).pass <;> cases hcnt : (passCount (outsEvs r.ro) == 1) <;> simp [compOK, hcnt]
+  have h3 : (runL m.policy (if b.isEmpty then [] else [Ev.comp CompKind.anyOf (here "anyOf" q [Frag.lit "doesn't match any schema from \"anyOf\""]) (outsEvs r.ra)])).2 =
+      !anyOK b r.ra := by
+    unfold anyOK
+    cases b.isEmpty with
+    | true => simp [runL]
+    | false =>
+      simp only [Bool.false_eq_true, if_false, runL, Ev.run, (run_agrees m.policy).2.1, Bool.false_or]
+      by_cases h : 1 ≤ passCount (outsEvs r.ra) <;> simp [compOK, h]
+  have h4 : (runL m.policy (if a.isEmpty then [] else [Ev.comp CompKind.allOf (here "allOf" q [Frag.lit "doesn't match all schemas from \"allOf\""]) (outsEvs r.rl)])).2 =
+      !(a.isEmpty || allOK r.rl) := by
+    unfold allOK
+    cases a.isEmpty with
+    | true => simp [runL]
+    | false =>
+      simp only [Bool.false_eq_true, if_false, runL, Ev.run, (run_agrees m.policy).2.1, Bool.false_or]
+      cases hcnt : (passCount (outsEvs r.rl) == r.rl.length) <;> simp [compOK, outsEvs, hcnt] <;> simp [outsEvs] at hcnt <;> simp [hcnt]
+  rw [h1, h2, h3, h4]
+  cases notOK r.rn <;> cases oneOK c kw r.ro v <;> cases anyOK b r.ra <;> cases (a.isEmpty || allOK r.rl) <;> rfl
+
+
+theorem compEvs_located (kw : Kw) (a b c : List S) (v q : J) (r : Subs)
+    (hd : c.isEmpty = false → (discCheck kw v).pass = false → q = v) : locatedL q (compEvs kw a b c v q r) := by
+  unfold compEvs
+  refine locatedL_append (locatedL_append (locatedL_append ?_ ?_) ?_) ?_
+  · cases r.rn <;> simp [locatedL, Ev.located, loc_here]
+  · cases hc : c.isEmpty with
+    | true => simp [locatedL]
+    | false =>
+      simp only [Bool.false_eq_true, if_false]
+      refine locatedL_append ?_ (by simp [locatedL, Ev.located, loc_here])
+      cases hp : (discCheck kw v).pass with
+      | true => rw [discEvs_nil_of_pass kw v hp]; simp [locatedL]
+      | false => rw [hd hc hp]; exact discEvs_located kw v
+  · cases b.isEmpty <;> simp [locatedL, Ev.located, loc_here]
+  · cases a.isEmpty <;> simp [locatedL, Ev.located, loc_here]
+
+theorem nodeD_locP (m : Mode) (env : Env) (kw : Kw) (a b c : List S) (p : List (String × S)) (sc : Bool) (v : J) (r : Subs)
+    (hl : a.isEmpty = true → r.rl = [])
+    (hown : locPL m.policy
+      (ownD m env kw p (seqFin r.rl (afterAny b r.ra (afterOne c kw r.ro v))) r.items r.props r.addl).2
+      (ownD m env kw p (seqFin r.rl (afterAny b r.ra (afterOne c kw r.ro v))) r.items r.props r.addl).1) :
+    locPL m.policy (nodeD m env kw a b c p sc v r).2 (nodeD m env kw a b c p sc v r).1 := by
+  unfold nodeD
+  split
+  · simp [locPL]
+  · split
+    · cases v.isNull <;> simp [locPL, Ev.locP]
+      exact loc_noValue _ _ rfl rfl
+    · dsimp only
+      generalize hfin : (if (!notOK r.rn) = true then v else
+          if (!oneOK c kw r.ro v) = true then v else
+          if (!anyOK b r.ra) = true then afterOne c kw r.ro v else
+          if (!allOK r.rl) = true then seqFin r.rl (afterAny b r.ra (afterOne c kw r.ro v)) else
+          if (v.isNull && (!c.isEmpty || !b.isEmpty || !a.isEmpty)) = true then seqFin r.rl (afterAny b r.ra (afterOne c kw r.ro v)) else
+          if (!enumOK kw (seqFin r.rl (afterAny b r.ra (afterOne c kw r.ro v)))) = true then seqFin r.rl (afterAny b r.ra (afterOne c kw r.ro v))
+          else (ownD m env kw p (seqFin r.rl (afterAny b r.ra (afterOne c kw r.ro v))) r.items r.props r.addl).2) = fin
+      have hd : c.isEmpty = false → (discCheck kw v).pass = false → fin = v := by
+        intro hc hp
+        rw [← hfin]
+        have : oneOK c kw r.ro v = false := by simp [oneOK, hc, hp]
+        simp only [this]
+        cases notOK r.rn <;> simp
+      show locPL m.policy fin (compEvs kw a b c v fin r ++ _)
+      apply locPL_append
+      · exact (locP_of_located m.policy).2.2 _ _ (compEvs_located kw a b c v fin r hd)
+      · intro hs
+        rw [compEvs_halt] at hs
+        simp only [Bool.not_eq_false', Bool.and_eq_true] at hs
+        obtain ⟨⟨⟨hn, ho⟩, ha⟩, hall⟩ := hs
+        have hall' : allOK r.rl = true := by
+          cases hae : a.isEmpty with
+          | true => rw [hl hae]; exact allOK_nil
+          | false => simpa [hae] using hall
+        split
+        · simp [locPL]
+        · rename_i hskip
+          apply locPL_append
+          · exact (locP_of_located m.policy).2.2 _ _ (chk_located _ _ _ _ (loc_here _ _ _))
+          · intro he
+            have henum : enumOK kw (seqFin r.rl (afterAny b r.ra (afterOne c kw r.ro v))) = true := by
+              unfold enumEvsQ chk at he
+              split at he
+              · simp [runL, Ev.run, policy_fatal] at he
+              · rename_i hb; simpa using hb
+            have : fin = (ownD m env kw p (seqFin r.rl (afterAny b r.ra (afterOne c kw r.ro v))) r.items r.props r.addl).2 := by
+              rw [← hfin]
+              simp [hn, ho, ha, hall', hskip, henum]
+            rw [this]; exact hown
+
+
+theorem visitD_locP_all (m : Mode) (env : Env) :
+    (∀ (s : S) (v : J), WFJ v → s.dfltsWF → locPL m.policy (visitD m env s v).2 (visitD m env s v).1) ∧
+    (∀ (ad : Option S) (_kvs : List (String × J)), dfltsWFO ad →
+        ∀ t, ad = some t → ∀ x, WFJ x → locPL m.policy (visitD m env t x).2 (visitD m env t x).1) ∧
+    (∀ (p : List (String × S)) (_kvs : List (String × J)), dfltsWFP p →
+        ∀ k s, lookup k p = some s → ∀ x, WFJ x → locPL m.policy (visitD m env s x).2 (visitD m env s x).1) ∧
+    (∀ (i : Option S) (_xs : List J), dfltsWFO i →
+        ∀ t, i = some t → ∀ x, WFJ x → locPL m.policy (visitD m env t x).2 (visitD m env t x).1) ∧
+    (∀ (_ss : List S) (_v : J), True) ∧ (∀ (_ss : List S) (_v : J), True) ∧
+    (∀ (_dr : String) (_ss : List S) (_v : J), True) ∧ (∀ (_n : Option S) (_v : J), True) := by
+  refine visitD.mutual_induct m env
+    (motive_1 := fun s v => WFJ v → s.dfltsWF → locPL m.policy (visitD m env s v).2 (visitD m env s v).1)
+    (motive_2 := fun ad _ => dfltsWFO ad → ∀ t, ad = some t → ∀ x, WFJ x → locPL m.policy (visitD m env t x).2 (visitD m env t x).1)
+    (motive_3 := fun p _ => dfltsWFP p → ∀ k s, lookup k p = some s → ∀ x, WFJ x → locPL m.policy (visitD m env s x).2 (visitD m env s x).1)
+    (motive_4 := fun i _ => dfltsWFO i → ∀ t, i = some t → ∀ x, WFJ x → locPL m.policy (visitD m env t x).2 (visitD m env t x).1)
+    (motive_5 := fun _ _ => True) (motive_6 := fun _ _ => True) (motive_7 := fun _ _ _ => True) (motive_8 := fun _ _ => True)
+    ?main ?seqNil ?seqCons ?eachNil ?eachCons ?selNil ?selCons ?adNone ?adSome ?itNone ?itSome ?notNone ?notSome ?pNil ?pCons
+  case seqNil => intros; trivial
+  case seqCons => intros; trivial
+  case eachNil => intros; trivial
+  case eachCons => intros; trivial
+  case selNil => intros; trivial
+  case selCons => intros; trivial
+  case notNone => intros; trivial
+  case notSome => intros; trivial
+  case adNone => intro _ _ t h; cases h
+  case adSome =>
+    intro t kvs ih hs t' ht x hx
+    cases ht
+    exact ih ("", x) hx (by simpa [dfltsWFO] using hs)
+  case itNone => intro _ _ t h; cases h
+  case itSome =>
+    intro t xs ih hs t' ht x hx
+    cases ht
+    exact ih x hx (by simpa [dfltsWFO] using hs)
+  case pNil => intro kvs _ k s h; simp [lookup] at h
+  case pCons =>
+    intro k0 s0 ps kvs ih1 ih2 hs k s hl x hx
+    simp only [dfltsWFP] at hs
+    simp only [lookup] at hl
+    split at hl
+    · cases hl; exact ih1 x hx hs.2.1
+    · exact ih2 hs.2.2 k s hl x hx
+  case main =>
+    intro kw a b c n i p ad v
+    dsimp only
+    intro _ _ _ _ ihi ihp ihad hw hs
+    unfold S.dfltsWF at hs
+    obtain ⟨hsa, hsb, hsc, hsn, hsi, hsp, hsad⟩ := hs
+    have w2 : WFJ (afterOne c kw (selD m env (discCheck kw v).ref c v) v) := by
+      rcases afterOne_cases c kw (selD m env (discCheck kw v).ref c v) v with h | ⟨o, ho, h⟩
+      · rw [h]; exact hw
+      · rw [h]; exact (visitD_wf_all m env).2.2.2.2.2.2.1 _ c v hw hsc o ho
+    unfold visitD
+    simp only []
+    generalize hv2 : afterOne c kw (selD m env (discCheck kw v).ref c v) v = v2 at *
+    have w3 : WFJ (afterAny b (eachD m env b v2) v2) := by
+      rcases afterAny_cases b (eachD m env b v2) v2 with h | ⟨o, ho, h⟩
+      · rw [h]; exact w2
+      · rw [h]; exact (visitD_wf_all m env).2.2.2.2.2.1 b v2 w2 hsb o ho
+    generalize hv3 : afterAny b (eachD m env b v2) v2 = v3 at *
+    have w4 : WFJ (seqFin (seqD m env a v3) v3) := by
+      rcases seqFin_cases (seqD m env a v3) v3 with h | ⟨o, ho, h⟩
+      · rw [h]; exact w3
+      · rw [h]; exact (visitD_wf_all m env).2.2.2.2.1 a v3 w3 hsa o ho
+    generalize hv4 : seqFin (seqD m env a v3) v3 = v4 at *
+    apply nodeD_locP
+    · intro hae
+      have : a = [] := by simpa using hae
+      subst this; simp [seqD]
+    · simp only [hv2, hv3, hv4]
+      apply ownD_locP
+      · intro o ho
+        cases i with
+        | none => simp [itemsD] at ho
+        | some t =>
+          simp only [itemsD, List.mem_map] at ho
+          obtain ⟨x, hx, rfl⟩ := ho
+          have hwx : WFJ x := by
+            cases v4 with
+            | arr xs => simp only [itemsOf] at hx; simp only [WFJ] at w4; exact wfjl_mem w4 x hx
+            | _ => simp [itemsOf] at hx
+          exact ihi hsi t rfl x hwx
+      · cases i with
+        | none => left; simp [itemsD]
+        | some t => right; simp [itemsD]
+      · intro k o ho
+        rw [propsD_lookup] at ho
+        split at ho
+        · rename_i s x hls hlx
+          cases ho
+          have hwx : WFJ x := by
+            cases v4 with
+            | obj kvs =>
+              simp only [WFJ] at w4
+              exact wfjp_mem (ownKvs_wf env kw p kvs hsp w4.1 w4.2).2 (k, x) (lookup_some_mem _ k x hlx)
+            | _ => simp [ownKvs, lookup] at hlx
+          exact ihp hsp k s hls x hwx
+        · cases ho
+      · intro k o ho
+        cases ad with
+        | none => simp [addlD, lookup] at ho
+        | some t =>
+          rw [addlD_lookup, undeclared_lookup] at ho
+          split at ho
+          · cases hl : lookup k (ownKvs env kw p v4) with
+            | none => simp [hl] at ho
+            | some x =>
+              simp only [hl, Option.map_some, Option.some.injEq] at ho
+              subst ho
+              have hwx : WFJ x := by
+                cases v4 with
+                | obj kvs =>
+                  simp only [WFJ] at w4
+                  exact wfjp_mem (ownKvs_wf env kw p kvs hsp w4.1 w4.2).2 (k, x) (lookup_some_mem _ k x hl)
+                | _ => simp [ownKvs, lookup] at hl
+              exact ihad hsad t rfl x hwx
+          · simp at ho
+      · cases v4 with
+        | obj kvs => simp only [WFJ] at w4; exact (ownKvs_wf env kw p kvs hsp w4.1 w4.2).1
+        | _ => simp [ownKvs, keysOf]
+
+/-- **C12, second sentence, under default injection.** In every mode, for every schema (whose defaults are well-formed
+values), every well-formed value and every option set, each reported error carries a pointer that resolves in the
+value AS THE CALLER FINDS IT AFTER VALIDATION (to the enclosing object for a missing required property) and quotes what
+is found there — although the validator mutates the value while it builds the errors. -/
+theorem errors_point_at_data_after_injection (m : Mode) (env : Env) (s : S) (v : J) (hw : WFJ v) (hs : s.dfltsWF) :
+    ∀ e ∈ (validateD m env s v).1.errs, Loc (validateD m env s v).2 e := by
+  unfold validateD
+  exact pointers_located_consumed m _ _ ((visitD_locP_all m env).1 s v hw hs)
+
 
 end KinModel.Schema
